@@ -4,7 +4,7 @@
 # (b) its demonstration fails with it, (c) the demonstration passes without it. On success the change is
 # stored as /verif/seeded/<Cxx>-<k>/ (patch.diff, demo.rs, note.md, meta.json).
 set -u
-ID="$1"; K="$2"; W="/tmp/seed/$ID"; O="$W/_out"
+ID="$1"; K="$2"; BASE="${3:-/tmp/seed}"; TAG="${4:-}"; W="$BASE/$ID"; O="$W/_out"
 export CARGO_TARGET_DIR="$W/target" CARGO_NET_OFFLINE=true
 cd "$W" || exit 2
 git checkout -q -- . ; rm -rf tests
@@ -15,13 +15,14 @@ git apply "$O/change$K.diff" || { echo "$ID-$K: patch does not apply"; exit 1; }
 T=$(cargo test --offline 2>&1 | grep -E "^test result" | head -1)
 echo "$T" | grep -q "94 passed; 0 failed" || { echo "$ID-$K: existing tests do not pass with the change: $T"; git checkout -q -- .; exit 1; }
 mkdir -p tests; cp "$O/demo$K.rs" tests/seed_demo.rs
-D1=$(cargo test --offline --test seed_demo 2>&1 | grep -E "^test result|error(\[|:)" | head -2 | tr '\n' ' ')
+FEAT=""; grep -q "borsh" "$O/demo$K.rs" && FEAT="--features borsh"
+D1=$(cargo test --offline $FEAT --test seed_demo 2>&1 | grep -E "^test result|error(\[|:)" | head -2 | tr '\n' ' ')
 echo "$D1" | grep -q "FAILED" || { echo "$ID-$K: demo does not fail with the change: $D1"; git checkout -q -- .; rm -rf tests; exit 1; }
 git checkout -q -- .
-D0=$(cargo test --offline --test seed_demo 2>&1 | grep -E "^test result|error(\[|:)" | head -2 | tr '\n' ' ')
+D0=$(cargo test --offline $FEAT --test seed_demo 2>&1 | grep -E "^test result|error(\[|:)" | head -2 | tr '\n' ' ')
 rm -rf tests
 echo "$D0" | grep -q "test result: ok" || { echo "$ID-$K: demo does not pass on the clean tree: $D0"; exit 1; }
-DST="/verif/seeded/$ID-$K"; mkdir -p "$DST"
+DST="/verif/seeded/$ID-$TAG$K"; mkdir -p "$DST"
 cp "$O/change$K.diff" "$DST/patch.diff"; cp "$O/demo$K.rs" "$DST/demo.rs"; cp "$O/note$K.md" "$DST/note.md" 2>/dev/null
 python3 - "$ID" "$K" "$DST" "$T" "$D1" "$D0" <<'PY'
 import json,sys
@@ -29,8 +30,8 @@ ID,K,DST,T,D1,D0=sys.argv[1:7]
 note=open(DST+'/note.md').read() if __import__('os').path.exists(DST+'/note.md') else ''
 json.dump({"breaks_property": ID, "origin": "independent sub-agent given only the property text and a scratch worktree",
   "needs_to_manifest": note.strip().split('\n\n')[0][:1500],
-  "confirmed": {"where": "scratch worktree /tmp/seed/%s (removed afterwards)"%ID,
+  "confirmed": {"where": "scratch worktree of /repo under /tmp (removed afterwards)",
      "existing_tests_with_change": T, "demo_with_change": D1.strip(), "demo_without_change": D0.strip()},
   "checks_run": {}}, open(DST+'/meta.json','w'), indent=1)
 PY
-echo "$ID-$K: confirmed -> $DST"
+echo "$ID-$TAG$K: confirmed -> $DST"
